@@ -16,6 +16,7 @@ emissions of the fallback source `dF`, fallback failure `cF`, and `round` = one 
 -/
 import Frequenz.Lemmas.FallbackClosed
 import Frequenz.Extracted.Evaluator
+import Frequenz.Lemmas.FallbackTie
 
 open Fallback
 
@@ -184,3 +185,38 @@ example : AdmFrom 0 2 St.init C19_synced_demo ∧ (run C19_synced_demo).pClosed 
     rw [h] at h0; cases h0; rfl
   subst this
   decide
+
+/-! ### The model is the source -/
+
+/-- **Tie by proof** (replaces the sampling tie of `round`/`withFallback`/`withLatest`/`syncLoop`).
+`Extracted.FallbackPull.fetch_next` is the statement-by-statement translation of the CURRENT source text of
+`MetricFetcher.fetch_next`, `_fetch_next`, `fetch_next_with_fallback`, `_synchronize_and_fetch_fallback` and
+`_is_value_valid`, regenerated on every run, as a function of the two receiver queues, their closed flags,
+`fallback.is_running` and `_latest_fallback_sample` (`Pull.PSt`; values may be `None`, NaN, ±inf or numbers).
+For EVERY such state `c` of a fetcher with a fallback and every model state `σ` whose live fields are the abstraction
+of `c` (`FallbackTie.Rel`; the history fields `out`, `pAll`, `fAll`, `acc` are arbitrary):
+  * the translated call blocks (needs data not yet delivered)  ⇔  `round σ = none`;
+  * it returns `v` leaving `c'`  ⇒  `round σ = some σ'` with the live fields of `σ'` the abstraction of `c'`, the
+    history fields unchanged and `out` extended by `v` (a sample or `None`);
+  * it propagates a `ReceiverError` leaving `c'`  ⇒  the same with `.raised` appended;
+  * it never raises anything else (`FallbackTie.Agrees`);
+and the returned value is what `value`/`apply` read back afterwards.  Every model state is the abstraction of some `c`
+(second conjunct), so this covers ALL model states.  A semantic change of those methods makes this
+theorem (or the extraction) fail; a behaviour-preserving rewrite does not. -/
+theorem C19_model_is_source :
+    (∀ (σ : St) (c : Pull.PSt), FallbackTie.Rel σ c →
+      FallbackTie.Agrees σ (round σ) (Extracted.FallbackPull.fetch_next c) ∧
+      (∀ v c', Extracted.FallbackPull.fetch_next c = .ok v c' → c'.next = v)) ∧
+    (∀ σ : St, FallbackTie.Rel σ (FallbackTie.conc σ)) :=
+  ⟨fun σ c h => ⟨FallbackTie.round_is_source σ c h, fun v c' hv => FallbackTie.fetch_stores_next c c' v hv⟩,
+   FallbackTie.rel_conc⟩
+
+/-- Non-vacuity: a running fallback, a NaN primary sample at tick 12, fallback queue at ticks 11, 12 — the relation
+holds and both sides return the fallback sample of tick 12. -/
+example :
+    let c : Pull.PSt := ⟨[⟨12, some .nan⟩], false, [⟨11, some (.num 211)⟩, ⟨12, some (.num 212)⟩], false, true, true,
+      none, none⟩
+    let σ : St := { pq := [⟨12, none⟩], fq := [⟨11, some 211⟩, ⟨12, some 212⟩], running := true }
+    FallbackTie.Rel σ c ∧ (round σ).map (·.out) = some [.sample ⟨12, some 212⟩] ∧
+    (∃ c', Extracted.FallbackPull.fetch_next c = .ok (some ⟨12, some (.num 212)⟩) c') := by
+  refine ⟨⟨rfl, rfl, rfl, rfl, rfl, rfl, rfl⟩, by decide, ⟨_, rfl⟩⟩
